@@ -222,3 +222,54 @@ def rule_children_stay(ctx, M, rule):
         ctx.ok(rule, "<crate>", "no body moves a field out of a by-value future/stream combinator (%d combinator types; control: %d such moves out of other crate types)" % (len(comb), control),
                nontrivial=control > 0)
     return not bad, control
+
+
+# ---------------------------------------------------------------------------------------------------------------------
+# pin helpers (utils::pin): the value terms read `iter_pin_mut(x)` / `get_pin_mut(x, i)` as views of x's elements; this is
+# the rule that makes that reading true (added after round 8)
+
+PIN_HELPERS = {"iter_pin_mut": "iter", "iter_pin_mut_vec": "iter", "get_pin_mut": "get", "get_pin_mut_from_vec": "get"}
+
+
+def rule_pin_utils(ctx, M, rule):
+    """iter_pin_mut*(c) is `c.iter_mut().map(|t| Pin::new_unchecked(t))` and get_pin_mut*(c, i) is `c.get_mut(i).map(|t|
+    Pin::new_unchecked(t))` over the standard slice / Vec accessors (trusted library models: every element once, in order,
+    zero-sized elements included); no hand-written pointer walk."""
+    from . import flow
+    n = 0
+    for b in M.F.bodies:
+        if b.kind != "Fn" or b.name not in PIN_HELPERS or "utils::pin" not in b.def_:
+            continue
+        n += 1
+        bi = M.info(b)
+        kind = PIN_HELPERS[b.name]
+        rets = flow.returned_values(bi)
+        ok = len(rets) == 1
+        why = []
+        if ok:
+            t = rets[0][3]
+            if kind == "iter":
+                ok = t[0] == "call" and t[1][1] == "map" and len(t[2]) == 2 and t[2][0][0] == "call" and t[2][0][1][1] == "iter_mut" \
+                    and t[2][0][2] and t[2][0][2][0] == ("param", 1)
+                if ok:
+                    cl = t[2][1]
+                    ok = cl[0] == "agg" and isinstance(cl[1], tuple) and cl[1][0] == "closure" and M.F.closure_return_term(cl[1][1]) == ("param", 2)
+            else:
+                # Option::map with a re-pinning closure is folded to its receiver by the term builder
+                ok = t[0] == "call" and t[1][1] == "get_mut" and len(t[2]) == 2 and t[2][0] == ("param", 1) and t[2][1] == ("param", 2)
+        raw = []
+        for blk in b.j["blocks"]:
+            for st in blk["stmts"]:
+                if st["k"] == "assign" and st["rv"]["k"] == "rawptr":
+                    raw.append(st.get("sp"))
+            tt = blk["term"]
+            if tt["k"] == "call" and (tt["func"].get("name") in ("add", "offset", "sub", "as_mut_ptr", "as_ptr", "from_raw_parts_mut", "from_raw_parts", "read", "write")):
+                raw.append(tt.get("sp"))
+        ctx.check(ok and not raw, rule, b.def_, "%s is the standard accessor of its argument re-pinned element-wise (no pointer walk)" % b.name,
+                  site=b.span, path=[str(x) for x in raw[:3]])
+    # a helper type with its own Iterator impl in utils::pin replaces the library iterator by hand-written code
+    for i in M.F.impls:
+        if i["trait"] == "core::iter::traits::iterator::Iterator" and "utils::pin" in i["def"]:
+            ctx.fail(rule, i["def"], "utils::pin defines its own Iterator (the pin helpers are views over the standard slice iterators)", site=i.get("span"))
+            n += 1
+    return n
